@@ -118,7 +118,11 @@ struct CaseRec {
   uint64_t digest = 0;               // hash of everything the case observed (heap-fill differential, C20)
   void mix(uint64_t v) { digest = fnv_u64(v, digest ? digest : 1469598103934665603ull); }
   void mix(const std::string &s) { digest = fnv(s, digest ? digest : 1469598103934665603ull); }
-  void tag(const std::string &c) { classes.push_back(c); }
+  void tag(const std::string &c) {  // a class is counted once per case (the evidence reports shares of cases)
+    for (auto &x : classes)
+      if (x == c) return;
+    classes.push_back(c);
+  }
   void clear() { *this = CaseRec(); }
 };
 extern CaseRec g_case;
